@@ -141,6 +141,11 @@ class Builder:
         if qs and s.n > 0:
             s.nb = 0
 
+    def image(self, slot):
+        """op 20: the bytes of serialize() (compresses; the oracle needs the peek to follow)"""
+        self.peek_if_dirty(slot)
+        self.ops.append((20, [slot])); self.sims[slot].nb = 0
+
     def scalars(self, slot):
         for c in (7, 8, 9, 10, 17):
             self.ops.append((c, [slot]))
@@ -584,14 +589,14 @@ def single_value_case(rng, cid):
         b.dump(0)                                 # compress: reverse_merge flips
     for y in stream(rng, "random", rng.choice([0, 3, 40])):
         b.update(2, y)
-    b.ops.append((20, [0]))
+    b.image(0)
     b.sims[0].nb = 0
     b.scalars(0)
     if rng.random() < 0.5:
-        b.roundtrip(0); b.ops.append((20, [0])); b.scalars(0)
+        b.roundtrip(0); b.image(0); b.scalars(0)
     b.peek_if_dirty(0)
     b.ops.append((19, [0, 1])); b.sims[1] = copy.deepcopy(b.sims[0])
-    twin_do(b, 0, 1, lambda s_: (b.ops.append((20, [s_])), b.scalars(s_)))
+    twin_do(b, 0, 1, lambda s_: (b.image(s_), b.scalars(s_)))
     twin_do(b, 0, 1, lambda s_: b.query(4, s_, 0, [0.0, 0.5, 1.0]))
     for rnd in range(rng.randint(1, 3)):
         n = rng.choice([1, 2, 5, 4 * capacity(k) + 3])
@@ -599,7 +604,7 @@ def single_value_case(rng, cid):
             twin_do(b, 0, 1, lambda s_, y=y: b.update(s_, y))
         if rng.random() < 0.5:
             twin_do(b, 0, 1, lambda s_: b.merge(s_, 2))
-        twin_do(b, 0, 1, lambda s_: (b.dump(s_), b.ops.append((20, [s_])), b.scalars(s_)))
+        twin_do(b, 0, 1, lambda s_: (b.dump(s_), b.image(s_), b.scalars(s_)))
         if rng.random() < 0.4:
             twin_do(b, 0, 1, lambda s_: b.roundtrip(s_))
     sim = b.sims[0]
@@ -619,16 +624,16 @@ def codec_case(rng, cid, tier, twins=True):
     for x in vals:
         b.update(0, x)
         if rng.random() < 0.01:
-            b.dump(0); b.ops.append((20, [0]))
+            b.dump(0); b.image(0)
     for x in stream(rng, rng.choice(SHAPES), rng.choice([0, 1, 7, 100])):
         b.update(2, x)
-    b.dump(0); b.ops.append((20, [0])); b.scalars(0)
+    b.dump(0); b.image(0); b.scalars(0)
     if rng.random() < 0.3:
-        b.merge(0, 2); b.ops.append((20, [0]))
+        b.merge(0, 2); b.image(0)
     if not twins:
         if rng.random() < 0.5:
-            b.freeze(0); b.ops.append((20, [0]))
-        b.dump(2); b.ops.append((20, [2]))
+            b.freeze(0); b.image(0)
+        b.dump(2); b.image(2)
         return Case(cid, [], b.ops, tag="td-layout-" + shape)
     # fork and drive both copies in lock step
     b.peek_if_dirty(0)
@@ -656,7 +661,7 @@ def codec_case(rng, cid, tier, twins=True):
                 qs = qgrid(rng, sim.n)
                 twin_do(b, 0, 1, lambda s_: b.query(3, s_, mode, vs))
                 twin_do(b, 0, 1, lambda s_: b.query(4, s_, mode, qs))
-        twin_do(b, 0, 1, lambda s_: (b.dump(s_), b.ops.append((20, [s_])), b.scalars(s_)))
+        twin_do(b, 0, 1, lambda s_: (b.dump(s_), b.image(s_), b.scalars(s_)))
     return Case(cid, [], b.ops, tag="td-codec-" + shape)
 
 
@@ -816,7 +821,7 @@ def size_case(rng, cid, tier):
     for i, x in enumerate(vals):
         b.update(0, x)
         if i + 1 == p:
-            b.dump(0); b.ops.append((20, [0])); b.scalars(0); p *= 2
+            b.dump(0); b.image(0); b.scalars(0); p *= 2
     return Case(cid, [], b.ops, tag="td-size-" + shape)
 
 
